@@ -182,6 +182,15 @@ _MORE3 = {
     'C18': ' Unknown annotation keys are derived from the known ones (substrings, one character more, other case).',
     'C19': ' A fifth of the inputs carry one character on which the notions of blank disagree (25 of them) at the end, the beginning or in place of a space.',
 }
+_MORE4 = {
+    'C02': ' References are placed at fifteen syntactic positions (index, range bound, set element, call argument, quantifier domain as accessor / range / set, inner domains, ...).',
+    'C05': ' An API call table builds calls with 2-5 arguments (only the API can) with a reference at every argument position and a use of it at a disjoint type: TypeError is required.',
+    'C11': ' A share step puts the same event object into two positions.',
+    'C14': ' A quarter of the random inputs pass through API steps first, including calls widened to several arguments.',
+}
+for _pid, _t in _MORE4.items():
+    EXTRA.setdefault(_pid, dict(level='', technique=''))
+    EXTRA[_pid]['level'] += _t
 for _pid, _t in _MORE3.items():
     EXTRA.setdefault(_pid, dict(level='', technique=''))
     EXTRA[_pid]['level'] += _t
